@@ -1162,3 +1162,13 @@ def stale_derived_state (repo, cls, modules):
           again = any(isinstance(t2, ast.Attribute) and t2.attr == X and norm(t2.value) == recv for t2, v2, st2, k2 in stores_in(f.node))
           if not again: out.append((X, P, ist, (m, f, st)))
   return out
+
+
+def alias_of (fnode, e, attr_text):
+  """is expression e the attribute `attr_text` (e.g. 'self._calls') or a local whose every definition in the function is a plain
+  copy of that attribute?  (The caller is responsible for the attribute not being re-bound while the alias lives.)"""
+  if norm(e) == attr_text: return True
+  if isinstance(e, ast.Name):
+    ds = [v for v, st_, k in reaching_assign(fnode, e.id)]
+    return bool(ds) and all(v is not None and norm(v) == attr_text for v in ds)
+  return False
